@@ -285,6 +285,178 @@ func RandomValid(rng *rand.Rand, pr Profile) string {
 	}
 }
 
+// CastleStress builds positions around castling: kings and rooks at home with rights, extra heavy
+// pieces aimed at the corners and the squares the king crosses, so that rook trades on home squares,
+// attacked transit squares and lost/kept rights are all frequent within a few plies.
+func CastleStress(rng *rand.Rand) string {
+	for {
+		bd := make([]int, 64)
+		bd[4], bd[60] = 6, 14
+		for _, c := range [][2]int{{0, 4}, {7, 4}, {56, 12}, {63, 12}} {
+			if rng.Intn(8) != 0 {
+				bd[c[0]] = c[1]
+			}
+		}
+		heavy := []int{4, 4, 5, 3, 2}
+		for c := 0; c < 2; c++ {
+			for i, n := 0, rng.Intn(4); i < n; i++ {
+				var s int
+				switch rng.Intn(4) {
+				case 0:
+					s = rng.Intn(8)*8 + []int{0, 7}[rng.Intn(2)] // a/h file
+				case 1:
+					s = []int{0, 7}[rng.Intn(2)]*8 + rng.Intn(8) // back ranks
+				case 2:
+					s = []int{1, 6}[rng.Intn(2)]*8 + rng.Intn(8) // second ranks
+				default:
+					s = rng.Intn(64)
+				}
+				if bd[s] != 0 {
+					continue
+				}
+				bd[s] = 8*c + heavy[rng.Intn(len(heavy))]
+			}
+			for i, n := 0, rng.Intn(4); i < n; i++ {
+				s := 8 + rng.Intn(48)
+				if bd[s] == 0 {
+					bd[s] = 8*c + 1
+				}
+			}
+		}
+		cntOK := true
+		for c := 0; c < 2; c++ {
+			var n [7]int
+			for _, p := range bd {
+				if p != 0 && p/8 == c {
+					n[p%8]++
+				}
+			}
+			if n[1]+max(n[2]-2, 0)+max(n[3]-2, 0)+max(n[4]-2, 0)+max(n[5]-1, 0) > 8 {
+				cntOK = false
+			}
+		}
+		if !cntOK {
+			continue
+		}
+		stm := rng.Intn(2)
+		if Attacked(bd, kingSq(bd, 1-stm), stm) {
+			stm = 1 - stm
+			if Attacked(bd, kingSq(bd, 1-stm), stm) {
+				continue
+			}
+		}
+		cr := 0
+		for i, c := range [][2]int{{7, 4}, {0, 4}, {63, 12}, {56, 12}} {
+			if bd[c[0]] == c[1] && rng.Intn(10) != 0 {
+				cr |= 1 << i
+			}
+		}
+		return FEN(bd, stm, cr, -1, rng.Intn(20), 1+rng.Intn(60))
+	}
+}
+
+// EpStress builds a position one ply before a double pawn push that lands next to one or two enemy
+// pawns, with the enemy king lined up with those pawns or with the pusher's origin square and the
+// pusher's sliders behind them: pinned capturers (file, rank, diagonal), both-pawns-on-the-rank pins,
+// checks discovered through the vacated square, and the double push giving check itself.
+// It returns the FEN and the from/to squares of the double push.
+func EpStress(rng *rand.Rand) (string, int, int) {
+	for {
+		bd := make([]int, 64)
+		c := rng.Intn(2) // pusher
+		f := rng.Intn(8)
+		homeR, toR, dir := 1, 3, 1
+		if c == 1 {
+			homeR, toR, dir = 6, 4, -1
+		}
+		from, mid, to := homeR*8+f, (homeR+dir)*8+f, toR*8+f
+		bd[from] = 8*c + 1
+		var caps []int
+		for _, nf := range []int{f - 1, f + 1} {
+			if nf >= 0 && nf < 8 && rng.Intn(4) != 0 {
+				bd[toR*8+nf] = 8*(1-c) + 1
+				caps = append(caps, toR*8+nf)
+			}
+		}
+		if len(caps) == 0 {
+			continue
+		}
+		// enemy king: lined up with a capturer, with the origin square, or with the ep square
+		anchor := caps[rng.Intn(len(caps))]
+		switch rng.Intn(4) {
+		case 0:
+			anchor = from
+		case 1:
+			anchor = mid
+		}
+		d := rng.Intn(8)
+		af, ar := anchor%8, anchor/8
+		var line []int
+		for k := 1; k < 8; k++ {
+			nf, nr := af+k*df[d], ar+k*dr[d]
+			if !onBoard(nf, nr) {
+				break
+			}
+			line = append(line, nr*8+nf)
+		}
+		var back []int
+		for k := 1; k < 8; k++ {
+			nf, nr := af-k*df[d], ar-k*dr[d]
+			if !onBoard(nf, nr) {
+				break
+			}
+			back = append(back, nr*8+nf)
+		}
+		if len(line) == 0 || len(back) == 0 {
+			continue
+		}
+		ek := line[rng.Intn(len(line))]
+		sl := back[rng.Intn(len(back))]
+		if bd[ek] != 0 || bd[sl] != 0 || ek == mid || ek == to || sl == mid || sl == to {
+			continue
+		}
+		bd[ek] = 8*(1-c) + 6
+		slider := 5
+		if rng.Intn(2) == 0 {
+			if d < 4 {
+				slider = 4
+			} else {
+				slider = 3
+			}
+		}
+		bd[sl] = 8*c + slider
+		// pusher's king anywhere not adjacent to the enemy king
+		ok := false
+		for try := 0; try < 20; try++ {
+			k := rng.Intn(64)
+			if bd[k] == 0 && k != mid && k != to && !(abs(k%8-ek%8) <= 1 && abs(k/8-ek/8) <= 1) {
+				bd[k] = 8*c + 6
+				ok = true
+				break
+			}
+		}
+		if !ok {
+			continue
+		}
+		// some random extras
+		for i, n := 0, rng.Intn(6); i < n; i++ {
+			s := rng.Intn(64)
+			if bd[s] != 0 || s == mid || s == to {
+				continue
+			}
+			t := 1 + rng.Intn(5)
+			if t == 1 && (s/8 == 0 || s/8 == 7) {
+				continue
+			}
+			bd[s] = 8*rng.Intn(2) + t
+		}
+		if Attacked(bd, kingSq(bd, 1-c), c) {
+			continue
+		}
+		return FEN(bd, c, 0, -1, rng.Intn(30), 1+rng.Intn(60)), from, to
+	}
+}
+
 func abs(x int) int {
 	if x < 0 {
 		return -x
